@@ -259,10 +259,15 @@ SIGS = [10, 12]
 
 
 def gen_case(rng, tier, force=None):
-    kind = force or rng.choices(["mix", "handoff", "redeliver", "child", "childreg"], [50, 20, 14, 10, 6])[0]
+    kind = force or rng.choices(["mix", "handoff", "redeliver", "child", "childreg", "plain"], [44, 18, 14, 10, 6, 8])[0]
     if kind == "childreg":
         return gen_childreg(rng)
-    nthr = rng.choice([1, 2, 2, 3])
+    # "plain": the process also has a thread that never called iv_init (no ivykis state); signals it receives must still reach the
+    # process-wide interests of the other threads
+    plain = kind == "plain"
+    if plain:
+        kind = rng.choice(["mix", "mix", "redeliver"])
+    nthr = rng.choice([1, 2, 2, 3]) if not plain else rng.choice([1, 1, 2])
     nsig = rng.choice([1, 1, 2])
     sigs = SIGS[:nsig]
     regsigs = sigs
@@ -287,6 +292,8 @@ def gen_case(rng, tier, force=None):
     mine = lambda k: [x for x in ints if x["thr"] == k]
 
     def tgt():
+        if plain and rng.random() < 0.5:
+            return f" T{nthr}"
         return rng.choice([""] + [f" T{j}" for j in range(nthr)])
 
     def action(k, self_id=None):
@@ -337,6 +344,8 @@ def gen_case(rng, tier, force=None):
                 if kind == "redeliver" and n == 1:
                     acts = [f"deliver {x['sig']}" + (f" T{x['thr']}" if x["this"] else tgt()), "yield"] + acts[:1]
                 reacts.append(f"on s{x['id']} {n} : " + " ; ".join(acts))
+    if plain:
+        lines.append(f"thread {nthr} plain")
     lines += reacts
     for j in range(rng.randint(2, 7)):
         acts = [f"deliver {rng.choice(sigs)}{tgt()}" for _ in range(rng.randint(1, 3))]
@@ -393,6 +402,8 @@ def gen_cases(tier, seed):
         ls = gen_case(erng, "quick")
         if sum(1 for l in ls if l.startswith("thread")) >= 2 and len(ls) <= 30:
             bases.append((f"gen{len(bases)}", ls))
+    for j in range(6):
+        bases.append((f"plain{j}", gen_case(erng, "quick", force="plain")))
     yield from sched.enum_cases(PROP, HARNESS, bases, tier, os.path.join(common.BUILD, "sched-c10"))
     for i in range(4000 if tier == "quick" else 60000):
         yield (f"rand-{i}", gen_case(rng, tier))
@@ -459,7 +470,7 @@ def valid_head(o):
 def run(tier, seed, proof):
     res = common.Result()
     res.rule = ("generated T-sched scenarios: 1-3 threads, 2-6 iv_signal interests (exclusive / shared, process-wide / this-thread) on 1-2 signals, "
-                "deliveries aimed at a thread or at any thread (from timers, from inside signal handlers, at loop waits, at quiescence), handlers that "
+                "deliveries aimed at a thread (also at a plain thread of the program that never called iv_init) or at any thread (from timers, from inside signal handlers, at loop waits, at quiescence), handlers that "
                 "unregister (self / others, with free) and re-register, deliveries while a handler runs, a forked child receiving signals and registering; "
                 "scheduler seeds from the scenario. Every log is replayed on the Lean LTS (each record = an enabled action, every post/sigaction predicted, "
                 "`active` snapshots under sig_lock equal) and judged by the implementation-only grant oracle. non-trivial = the replay covered at least one of: "
